@@ -253,6 +253,17 @@ func init() {
 		}
 		return nil
 	})
+	v("ParkSleepers", func(e *Engine, fr *frame, fn *ssa.Function, a []Value) Value {
+		e.sleepPark = e.concInt(a[0], "ParkSleepers") != 0
+		return nil
+	})
+	v("Sleepers", func(e *Engine, fr *frame, fn *ssa.Function, a []Value) Value {
+		return e.intC(int64(e.sleepers))
+	})
+	v("WakeSleepers", func(e *Engine, fr *frame, fn *ssa.Function, a []Value) Value {
+		e.sleepGen++
+		return nil
+	})
 	v("Settle", func(e *Engine, fr *frame, fn *ssa.Function, a []Value) Value {
 		e.settle()
 		return nil
@@ -756,10 +767,22 @@ func init() {
 	nop := func(e *Engine, fr *frame, fn *ssa.Function, a []Value) Value { return e.zeroResults(fn.Signature) }
 	for _, n := range []string{"runtime.GC", "runtime.SetFinalizer", "runtime.KeepAlive", "runtime/debug.FreeOSMemory",
 		"runtime/debug.SetGCPercent", "runtime.Stack", "runtime/debug.Stack", "runtime/debug.PrintStack", "runtime.Caller", "runtime.Callers", "runtime.FuncForPC",
-		"os.Getenv", "os.LookupEnv", "os.Getpid", "os.Hostname", "time.Sleep", "runtime.LockOSThread", "runtime.UnlockOSThread",
+		"os.Getenv", "os.LookupEnv", "os.Getpid", "os.Hostname", "runtime.LockOSThread", "runtime.UnlockOSThread",
 		"internal/godebug.(*Setting).Value", "internal/godebug.(*Setting).IncNonDefault", "runtime.GOMAXPROCS"} {
 		reg(n, nop)
 	}
+	// time.Sleep is a no-op, unless the harness asked for sleeping goroutines to be parked
+	// (verif.ParkSleepers): then a sleeper other than the main goroutine blocks until
+	// verif.WakeSleepers, so that the environment can act while the code is inside a back-off
+	reg("time.Sleep", func(e *Engine, fr *frame, fn *ssa.Function, a []Value) Value {
+		if e.sleepPark && e.sched != nil && e.sched.cur != e.sched.gs[0] {
+			gen := e.sleepGen
+			e.sleepers++
+			e.blockUntil(func() bool { return e.sleepGen > gen }, "time.Sleep (parked)")
+			e.sleepers--
+		}
+		return nil
+	})
 	reg("runtime.Gosched", func(e *Engine, fr *frame, fn *ssa.Function, a []Value) Value { e.yield(); return nil })
 	reg("runtime.NumCPU", func(e *Engine, fr *frame, fn *ssa.Function, a []Value) Value { return e.intC(4) })
 	reg("runtime.NumGoroutine", func(e *Engine, fr *frame, fn *ssa.Function, a []Value) Value { return e.intC(1) })
